@@ -514,8 +514,14 @@ class Textgrid:
     def renameTier(self, oldName: str, newName: str) -> None:
         oldTier = self.getTier(oldName)
         tierIndex = self.tierNames.index(oldName)
+        newTier = oldTier.new(newName, oldTier.entries)
         self.removeTier(oldName)
-        self.addTier(oldTier.new(newName, oldTier.entries), tierIndex)
+        try:
+            self.addTier(newTier, tierIndex)
+        except Exception:
+            # Put the old tier back so that a failed rename changes nothing
+            self.addTier(oldTier, tierIndex, constants.ErrorReportingMode.SILENCE)
+            raise
 
     def removeTier(self, name: str) -> textgrid_tier.TextgridTier:
         return self._tierDict.pop(name)
